@@ -1868,6 +1868,14 @@ pub fn run_c17(tier: Tier, budget: Duration, frag: &mut Frag) {
         frag.traces_validated += st.histories;
         frag.exhaustive &= !st.capped;
     }
+    {
+        let t1 = Instant::now();
+        let n = crate::c17::many_types_sweep(&mut frag.col);
+        frag.parts.push(json!({"engine":"E3 histmc","what":"tables of 1..24 distinct registered types of different sizes, grown one registration at a time (for every size at which the first / middle / last type is registered once more): get on every type, iter and iter_mut after every step","cases": n, "wall_s": t1.elapsed().as_secs_f64()}));
+        frag.states += n;
+        frag.transitions += n;
+        frag.traces_validated += n;
+    }
     // creation-path sweep: the resources reach the world by insert, the entry API, a default provider (setup), and
     // there are decoys under a dynamic id; de-duplicated on (registration order, present set, creation path, decoys)
     let t1 = Instant::now();
